@@ -308,8 +308,8 @@ def kalman_case_lit(d, ys, impl):
 KAL_TYPE = "nat * nat * nat * nat * Qmat * Qmat * Qmat * Qmat * Qmat * Qmat * list Qmat * list (option st)"
 KAL_OK = ("fun c => let '(n, m, k, l, A, C, G, H, xh, S0, ys, impl) := c in "
           "let path := kalman_path n m k l A C G H (xh, S0) ys in "
-          "let batch := firstn (length path) (map (batch_conditional n m k l A C G H xh S0) (prefixes ys)) in "
-          "list_eqb (ost_rel (st_close %s)) path impl && list_eqb (ost_rel st_eq) path batch" % T9)
+          "list_eqb (ost_rel (st_close %s)) path impl && "
+          "(if Nat.eqb (length path) (length ys) then ost_rel st_eq (last path None) (batch_conditional n m k l A C G H xh S0 ys) else true)" % T9)
 
 
 def gen_obs(rng, k, t):
@@ -323,18 +323,28 @@ def gen_obs(rng, k, t):
     return [[[Fraction(0)] for _ in range(k)] if rng.random() < 0.5 else rmat(rng, k, 1, -8, 8, 4) for _ in range(t)]
 
 
-def kalman_checks(ctx, N):
+BITS = {"stable": 4, "unstable": 5, "fine": 11, "float53": 53}
+
+
+def coq_cost(d, t):
+    """rough cost of the exact evaluation in Coq (Qred after every operation on numbers whose size grows like
+    (k t)^2 n bits); cases above the tier's limit are decided by the exact Python oracle only"""
+    return (d["k"] * t) ** 2 * d["n"] * BITS[d["kindA"]]
+
+
+def kalman_checks(ctx, N, limit):
     cases, meta = [], []
-    tries = 0
-    while len(cases) < N and tries < 20 * N:
+    done = tries = 0
+    while done < N and tries < 20 * N:
         tries += 1
         d = gen_model(ctx.rng)
-        t = ctx.rng.choice([1, 2, 3, 4, 5, 6, 6]) if d["kindA"] != "float53" else ctx.rng.choice([1, 2])
+        t = ctx.rng.choice([1, 2, 3, 4, 5, 6, 6]) if d["kindA"] != "float53" else ctx.rng.choice([1, 2, 3])
         ys = [fm(fl(y)) for y in gen_obs(ctx.rng, d["k"], t)]
         ob = oracle_batch(d, ys)
         if ob is None:
             ctx.count("kalman:regenerated_singular_F")
             continue
+        done += 1
         impl = run_kalman_impl(d, ys)
         inp = dict(model_json(d), ys=[fl(y) for y in ys])
         ctx.case(("kalman", str(inp)), nontrivial=(d["n"] >= 2 and t >= 2),
@@ -343,6 +353,8 @@ def kalman_checks(ctx, N):
         ctx.count("kalman:n=%d" % d["n"]); ctx.count("kalman:k=%d" % d["k"]); ctx.count("kalman:t=%d" % t)
         ctx.count("kalman:A=" + d["kindA"]); ctx.count("kalman:C=" + d["kindC"]); ctx.count("kalman:H=" + d["kindH"])
         # oracle: after every prefix the state equals the exact conditional law; covariance symmetric PSD
+        if len(impl) != t:
+            ctx.fail("kalman_raises", "update raised LinAlgError although Var(y) is non-singular", inp, None, None)
         for j, s in enumerate(impl):
             pin = dict(inp, prefix=j + 1)
             if s is None:
@@ -354,27 +366,29 @@ def kalman_checks(ctx, N):
                          pin, s, [fl(exact[0]), fl(exact[1])])
                 break
             check_psd(ctx, s[1], pin, "Kalman.Sigma")
-        cases.append(kalman_case_lit(d, ys, impl))
-        meta.append((inp, impl))
-    # rejected inputs: F exactly singular at the first observation (H = 0 with Sigma = 0, or duplicated rows of G)
-    for _ in range(max(4, N // 12)):
-        d = gen_model(ctx.rng, kindA="stable")
-        if ctx.rng.random() < 0.5 or d["k"] == 1:
-            d["H"] = zeros(d["k"], d["l"]); d["S0"] = zeros(d["n"], d["n"]); why = "zeroF"
+        if coq_cost(d, t) <= limit:
+            ctx.count("kalman:model_and_oracle")
+            cases.append(kalman_case_lit(d, ys, impl))
+            meta.append((inp, impl, coq_cost(d, t)))
         else:
-            d["H"] = zeros(d["k"], d["l"]); d["G"][d["k"] - 1] = list(d["G"][0]); why = "duprowsG"
+            ctx.count("kalman:oracle_only(cost>limit)")
+    # rejected inputs: F exactly zero at the first observation (H = 0 and Sigma = 0): inv raises LinAlgError
+    for _ in range(max(3, N // 16)):
+        d = gen_model(ctx.rng, kindA="stable")
+        d["H"] = zeros(d["k"], d["l"]); d["S0"] = zeros(d["n"], d["n"])
         ys = gen_obs(ctx.rng, d["k"], 2)
         impl = run_kalman_impl(d, ys)
         inp = dict(model_json(d), ys=[fl(y) for y in ys])
         ctx.case(("kalman_singular", str(inp)), nontrivial=False)
-        ctx.count("kalman:singular_F:" + why)
+        ctx.count("kalman:singular_F(zero)")
         if impl != [None]:
-            ctx.fail("kalman_singular_accepted", "F is exactly singular but update returned a state", inp, impl, "LinAlgError")
+            ctx.fail("kalman_singular_accepted", "F is exactly zero but update returned a state", inp, impl, "LinAlgError")
         cases.append(kalman_case_lit(d, ys, impl))
-        meta.append((inp, impl))
-    bad = ctx.coq_check("kalman_update_and_batch", IMPORTS, KAL_TYPE, KAL_OK, cases, chunk=max(1, len(cases) // 14), preamble=PRE)
+        meta.append((inp, impl, 0))
+    order = sorted(range(len(cases)), key=lambda i: -meta[i][2])      # expensive cases first: better load balance
+    bad = ctx.coq_check("kalman_update_and_batch", IMPORTS, KAL_TYPE, KAL_OK, [cases[i] for i in order], chunk=2, preamble=PRE)
     for i in bad:
-        ctx.mismatch("C12.Model.kalman_path / batch_conditional vs Kalman.update", meta[i][0], meta[i][1])
+        ctx.mismatch("C12.Model.kalman_path / batch_conditional vs Kalman.update", meta[order[i]][0], meta[order[i]][1])
 
 
 def stationary_checks(ctx, N):
@@ -828,7 +842,7 @@ def run(ctx):
     thorough = ctx.tier == "thorough"
     ctx.proofs()
     np.seterr(all="ignore")
-    kalman_checks(ctx, 400 if thorough else 56)
+    kalman_checks(ctx, 500 if thorough else 120, 12000 if thorough else 3000)
     stationary_checks(ctx, 120 if thorough else 24)
     lss_checks(ctx, 400 if thorough else 64)
     sim_checks(ctx, 300 if thorough else 48)
@@ -841,8 +855,11 @@ def replay(data):
     first = data.get("first") or (data.get("mismatches") or [{}])[0]
     print("replay:", json.dumps(first)[:3000])
     inp = first.get("input", {})
-    if isinstance(inp, dict) and "ys" in inp:
-        d = {key: (fm(inp[key]) if key in ("A", "C", "G", "H", "mu0", "S0") else inp[key]) for key in inp if key != "ys"}
+    if not isinstance(inp, dict) or "A" not in inp:
+        return 0
+    d = {key: (fm(inp[key]) if key in ("A", "C", "G", "H", "mu0", "S0") else inp[key]) for key in inp}
+    A, C, G, H = d["A"], d["C"], d["G"], d["H"]
+    if "ys" in inp:
         ys = [fm(y) for y in inp["ys"]]
         impl = run_kalman_impl(d, ys)
         for j, s in enumerate(impl):
@@ -851,4 +868,37 @@ def replay(data):
             print("   exact conditional mean=%s cov=%s" % (ex and fl(ex[0]), ex and fl(ex[1])))
             if s is not None and ex is not None:
                 print("   agrees:", mclose(s[0], ex[0], Fraction(1, 10**9)) and mclose(s[1], ex[1], Fraction(1, 10**9)))
+    elif "ts_length" in inp and "x0" in inp:
+        with_H = inp.get("with_H", True)
+        rs = ScriptedRS([inp["x0"], inp["w"]] + ([inp["v"]] if with_H else []))
+        x, y = mk_lss(d, with_H).simulate(inp["ts_length"], random_state=rs)
+        print("impl x =", x.tolist(), "y =", y.tolist())
+        X = fm(x)
+        for t in range(inp["ts_length"] - 1):
+            rhs = madd(mm(A, [[X[i][t]] for i in range(d["n"])]), mm(C, [[frac(inp["w"][i][t])] for i in range(d["m"])]))
+            print("   t=%d: x_{t+1} == A x_t + C w_{t+1}:" % t, [[X[i][t + 1]] for i in range(d["n"])] == rhs)
+    elif "beta" in inp:
+        ss = mk_lss(d, inp.get("with_H", True))
+        Sx, Sy = ss.geometric_sums(inp["beta"], npm(fm(inp["x_t"])))
+        ex = fsolve(msub(ident(d["n"]), mscale(frac(inp["beta"]), A)), fm(inp["x_t"]))
+        print("impl S_x =", Sx.tolist(), "exact (I - beta A)^-1 x_t =", ex and fl(ex))
+    elif "const_positions" in inp:
+        ss = mk_lss(d, inp.get("with_H", True))
+        try:
+            res = ss.stationary_distributions()
+            mu_x, Sx = res[0], res[2]
+            print("impl mu_x =", mu_x.tolist(), "A mu_x =", fl(mm(A, fm(mu_x))))
+            print("impl Sigma_x =", Sx.tolist(), "A Sigma_x A' + CC' =", fl(madd(mm(mm(A, fm(Sx)), mt(A)), mm(C, mt(C)))))
+        except Exception as e:
+            print("impl raised", type(e).__name__, e)
+    elif "T" in inp and "with_H" in inp and "num_reps" not in inp:
+        ss = mk_lss(d, inp["with_H"])
+        gen = ss.moment_sequence()
+        for t_ in range(inp["T"]):
+            mx, my, Sx, Sy = next(gen)
+            At = mpow(A, t_)
+            print("t=%d impl mu_x=%s closed form A^t mu_0=%s" % (t_, mx.tolist(), fl(mm(At, d["mu0"]))))
+        xc, yc = ss.impulse_response(inp["T"])
+        for i in range(len(xc)):
+            print("impulse %d: impl %s closed form A^i C = %s" % (i, np.asarray(xc[i]).tolist(), fl(mm(mpow(A, i), C))))
     return 0
